@@ -190,14 +190,18 @@ type hugeCase struct {
 func genHuge(t *rapid.T) hugeCase {
 	bases := []uint{1<<31 - 1, 1 << 31, 1<<31 + 5, 1<<31 + 64}
 	if pb.Thorough() {
-		bases = append(bases, 1<<32-1, 1<<32, 1<<32+1, 1<<32+130)
+		for _, b := range []uint64{1<<32 - 1, 1 << 32, 1<<32 + 1, 1<<32 + 130} {
+			if uint64(uint(b)) == b { // members beyond 2^32 exist only where uint has 64 bits
+				bases = append(bases, uint(b))
+			}
+		}
 	}
 	return hugeCase{Kind: rapid.IntRange(0, 2).Draw(t, "kind"), Base: rapid.SampledFrom(bases).Draw(t, "base"),
 		Extra: rapid.SliceOfN(rapid.UintRange(0, 4095), 0, 4).Draw(t, "extra")}
 }
 
 func runHuge(c hugeCase, r *pb.Rec) error {
-	if c.Base > 1<<32+1000 || len(c.Extra) > 16 {
+	if uint64(c.Base) > 1<<32+1000 || len(c.Extra) > 16 {
 		return nil
 	}
 	if sh, _ := strconv.Atoi(os.Getenv("VERIF_SHARD")); sh%4 != 0 && os.Getenv("VERIF_REPLAY") == "" {
@@ -215,7 +219,7 @@ func runHuge(c hugeCase, r *pb.Rec) error {
 		return nil
 	}
 	for _, x := range append(append([]uint(nil), c.Extra...), c.Base, c.Base+1, c.Base|63) {
-		if x > 1<<33 {
+		if uint64(x) > 1<<33 {
 			return nil
 		}
 		_, had := p.m[x]
